@@ -46,6 +46,7 @@ type Net struct {
 	dial      map[string]*dialState
 	nextCuts  map[string][]Cut // cuts to apply to the next pipe dialed to addr
 	DialLog   []DialEvent
+	FaultHook func(kind string, pipe int) // called (under the net lock) whenever a fault fires
 	Fired     FaultStats
 	Probes    map[string]int
 }
@@ -178,14 +179,15 @@ type stream struct {
 
 // Pipe is one simulated TCP connection.
 type Pipe struct {
-	ID   int
-	WS   bool
-	Addr string
-	net  *Net
-	c2s  *stream
-	s2c  *stream
-	C, S *Endpoint
-	Dead string // non-empty once a fault killed it
+	ID    int
+	WS    bool
+	Addr  string
+	net   *Net
+	c2s   *stream
+	s2c   *stream
+	C, S  *Endpoint
+	Dead  string    // non-empty once a fault killed it
+	rtoAt time.Time // one-way black hole: the sender's TCP gives up (reset) at this time
 	OpenedAt,
 	EndedAt time.Duration
 }
@@ -476,6 +478,15 @@ func (n *Net) Actions(now time.Time) []simrt.Action {
 	defer n.mu.Unlock()
 	var acts []simrt.Action
 	for _, p := range n.pipes {
+		if !p.rtoAt.IsZero() && !p.rtoAt.After(now) {
+			p := p
+			acts = append(acts, simrt.Action{Key: fmt.Sprintf("fault:rto:c%03d", p.ID), Internal: true, Do: func() {
+				n.mu.Lock()
+				p.rtoAt = time.Time{}
+				n.mu.Unlock()
+				n.Inject(p.ID, "rst", "both", 0)
+			}})
+		}
 		for _, st := range []*stream{p.c2s, p.s2c} {
 			st := st
 			if st.stalled && !st.stallUntil.IsZero() && !st.stallUntil.After(now) {
@@ -508,6 +519,9 @@ func (n *Net) NextDue(now time.Time) (time.Duration, bool) {
 		}
 	}
 	for _, p := range n.pipes {
+		if !p.rtoAt.IsZero() {
+			upd(p.rtoAt)
+		}
 		for _, st := range []*stream{p.c2s, p.s2c} {
 			if st.blackhole || st.rerr != nil {
 				continue
@@ -530,6 +544,9 @@ func (n *Net) Idle() bool {
 	n.mu.Lock()
 	defer n.mu.Unlock()
 	for _, p := range n.pipes {
+		if !p.rtoAt.IsZero() {
+			return false
+		}
 		for _, st := range []*stream{p.c2s, p.s2c} {
 			if st.blackhole || st.rerr != nil {
 				continue
@@ -627,6 +644,9 @@ func (n *Net) Inject(pipe int, kind, dir string, dur time.Duration) {
 	p := n.pipes[pipe]
 	n.Fired[kind]++
 	simrt.Rec("fault", kind, fmt.Sprintf("c%d:%s", pipe, dir), 0)
+	if n.FaultHook != nil {
+		n.FaultHook(kind, pipe)
+	}
 	both := []*stream{p.c2s, p.s2c}
 	sel := both
 	if dir == "c2s" {
@@ -657,6 +677,7 @@ func (n *Net) Inject(pipe int, kind, dir string, dur time.Duration) {
 			st.notify()
 			st.releaseStall()
 		}
+		p.rtoAt = time.Time{}
 		p.markDead("rst", n)
 	case "blackhole", "blackhole-both":
 		if kind == "blackhole-both" {
@@ -665,6 +686,11 @@ func (n *Net) Inject(pipe int, kind, dir string, dur time.Duration) {
 		for _, st := range sel {
 			st.blackhole = true
 			st.segs = nil
+		}
+		if len(sel) == 1 && p.rtoAt.IsZero() {
+			// one direction only: the sending side's TCP retransmits into the void
+			// and eventually resets the connection (modelled at 5 minutes)
+			p.rtoAt = time.Now().Add(5 * time.Minute)
 		}
 		p.markDead("blackhole", n)
 	case "stall":
